@@ -589,7 +589,8 @@ Definition meta_new : smeta := mkMeta None.
 Definition sset := list (smeta * sock).
 
 Inductive frame_in :=
-| FI_Udp (src : ipaddr) (sport : Z) (dst : ipaddr) (dport : Z) (payload : list Z) (valid : bool)
+| FI_Udp (src : ipaddr) (sport : Z) (dst : ipaddr) (dport : Z) (payload : list Z)
+         (defect : Z)      (* 0 valid, 1 UdpPacket::new_checked fails (length field), 2 bad checksum *)
 | FI_Icmp (m : icmp_msg) (valid : bool)
 | FI_Other (r : iprepr) (payload : list Z)     (* a protocol the stack has no handler for *)
 | FI_Neigh (a : ipaddr).                       (* ARP reply / neighbor advertisement (override) from a *)
@@ -660,6 +661,17 @@ Fixpoint neigh_insert (l : list (ipaddr * Z)) (a : ipaddr) (exp : Z) : list (ipa
 (* neighbor::Cache::fill (eviction of a full cache is not modelled) *)
 Definition neigh_fill (st : iface) (a : ipaddr) : iface :=
   if_set_neigh st (neigh_insert (if_neigh st) a (if_now st + neigh_ENTRY_LIFETIME_ms)).
+
+(* neighbor::Cache::reset_expiry_if_existing, called by process_ipv4 / process_ipv6 for every
+   packet with a unicast destination that passed the destination check (the hardware address
+   always matches in the modelled scope: one MAC per neighbour) *)
+Definition neigh_refresh (ev : env) (st : iface) (src dst : ipaddr) : iface :=
+  if if_eth st && e_has_ip_addr ev dst then
+    match neigh_find (if_neigh st) src with
+    | Some _ => neigh_fill st src
+    | None => st
+    end
+  else st.
 
 Definition if_has_neighbor (ev : env) (st : iface) (a : ipaddr) : bool :=
   match e_route ev a with
@@ -838,9 +850,14 @@ Definition if_reply_allowed (ev : env) (dst : ipaddr) (echo : bool) : bool :=
 Definition if_process_frame (ev : env) (st : iface) (ss : sset) (f : frame_in) : outcome (iface * sset) :=
   match f with
   | FI_Neigh a => Ok (if if_eth st then neigh_fill st a else st, ss)
-  | FI_Udp src sport dst dport payload valid =>
-      if negb (if_dst_ok ev dst) then Ok (st, ss)
-      else if negb valid then Ok (st, ss)
+  | FI_Udp src sport dst dport payload defect =>
+      (* process_ipv4 on Ethernet looks for a DHCP socket first and runs
+         check!(UdpPacket::new_checked(..)) before the destination check *)
+      if (a_ver dst =? 4) && if_eth st && (defect =? 1) then Ok (st, ss)
+      else if negb (if_dst_ok ev dst) then Ok (st, ss)
+      else
+      let st := neigh_refresh ev st src dst in
+      if negb (defect =? 0) then Ok (st, ss)
       else
         do '(ss', handled) <- if_process_udp ev ss src sport dst dport payload;
         if handled then Ok (st, ss')
@@ -849,7 +866,9 @@ Definition if_process_frame (ev : env) (st : iface) (ss : sset) (f : frame_in) :
         else Ok (st, ss')
   | FI_Icmp im valid =>
       if negb (if_dst_ok ev (im_dst im)) then Ok (st, ss)
-      else if negb valid then Ok (st, ss)
+      else
+      let st := neigh_refresh ev st (im_src im) (im_dst im) in
+      if negb valid then Ok (st, ss)
       else
         do ss' <- if_process_icmp ss im;
         if (im_kind im =? IK_ECHO_REQUEST) && if_reply_allowed ev (im_dst im) true
@@ -860,7 +879,9 @@ Definition if_process_frame (ev : env) (st : iface) (ss : sset) (f : frame_in) :
         (* IPv4: raw sockets see the packet before the destination check *)
         do '(ss', handled) <- if_raw_socket_filter ss r payload;
         if negb (if_dst_ok ev (ir_dst r)) then Ok (st, ss')
-        else if handled then Ok (st, ss')
+        else
+        let st := neigh_refresh ev st (ir_src r) (ir_dst r) in
+        if handled then Ok (st, ss')
         else if if_reply_allowed ev (ir_dst r) false
         then do st' <- if_reply ev st 4 (ir_src r); Ok (st', ss')
         else Ok (st, ss')
@@ -868,6 +889,7 @@ Definition if_process_frame (ev : env) (st : iface) (ss : sset) (f : frame_in) :
         if negb (if_dst_ok ev (ir_dst r)) then Ok (st, ss)
         else
           do '(ss', handled) <- if_raw_socket_filter ss r payload;
+          let st := neigh_refresh ev st (ir_src r) (ir_dst r) in
           if handled then Ok (st, ss')
           else do st' <- if_reply ev st 6 (ir_src r); Ok (st', ss')
   end.
@@ -934,8 +956,8 @@ Definition dg_step (ev : env) (st : iface) (ss : sset) (e : dg_event) : outcome 
    IPv4 ids: 1 = 10.0.0.1/24 (own), 2 = 10.0.1.1/24 (own, only when fam = 4),
              3 = 10.0.0.2, 4 = 10.0.0.3, 5 = 10.0.1.2 (on-link neighbours), 6 = 10.9.9.9 (no route),
              7 = 10.0.0.255 (subnet broadcast), 8 = 255.255.255.255, 9 = 224.0.0.1 (multicast)
-   IPv6 ids: 1 = fd00::1/64 (own), 2 = fd01::1/64 (own, only when fam = 6), 3 = fd00::2, 4 = fd00::3,
-             5 = fd01::2, 6 = 2001:db8::1 (no route), 9 = ff02::1 (multicast), 10 = ::1 *)
+   IPv6 ids: 1 = fd00::1/64 (own), 2 = fd01::7/64 (own, only when fam = 6), 3 = fd00::2, 4 = fd00::3,
+             5 = fd01::2, 6 = 2001:db8::99 (no route), 9 = ff02::1 (multicast), 10 = ::1 *)
 Definition std_has (fam ver : Z) : bool := (fam =? ver) || (fam =? 46).
 Definition std_second (fam : Z) (a : ipaddr) : bool := (fam =? a_ver a) && ((a_id a =? 2) || (a_id a =? 5)).
 Definition std_has_ip_addr (fam : Z) (a : ipaddr) : bool :=
@@ -952,7 +974,9 @@ Definition std_env (fam : Z) : env :=
     (fun a => a_id a =? 9)
     (std_is_broadcast fam)
     (fun a => if std_has fam 4 then (if std_second fam a then Some (mkA 4 2) else Some (mkA 4 1)) else None)
-    (fun a => if std_has fam 6 then (if std_second fam a then mkA 6 2 else mkA 6 1) else mkA 6 10)
+    (fun a => if std_has fam 6
+              then (if std_second fam a || ((fam =? 6) && (a_id a =? 9)) then mkA 6 2 else mkA 6 1)
+              else mkA 6 10)   (* RFC 6724 rule 2 as implemented: the last own address wins for ff02::1 *)
     (std_has_ip_addr fam)
     (fun a => if std_on_link fam a || ((a_ver a =? 4) && (a_id a =? 8)) then Some a else None)
     (if std_has fam 4 then Some (mkA 4 1) else None).
